@@ -1,5 +1,5 @@
 import SafeC.Driver
-import SafeC.Dispatch
+import SafeC.DispatchAll
 import SafeC.DriverHandlers
 /-!
 `safec_model`: reads op lines (see harness/hx.c), runs the Lean model of the named entry point
